@@ -1,11 +1,24 @@
 /-
-  Pulsar.Rapidproto — the decision logic of /repo/rapidproto/rapidproto.go that is not "ask rapid for
-  a draw": value ranges of the Timestamp / Duration generators (constants regenerated from the source
-  into Pulsar.Extracted), the enum draw (index → declared number), the FieldMask store, the nesting
-  limit. rapid itself is a black box supplying draws; theorems quantify over all draws.
+  Pulsar.Rapidproto — the decision logic of /repo/rapidproto/rapidproto.go.
+
+  Part 1 (kept from the first model): value ranges of the Timestamp / Duration generators (constants
+  regenerated from the source into Pulsar.Extracted), the enum draw (index → declared number), the
+  FieldMask store, the nesting limit.
+
+  Part 2 (draw level, RAPID_PROTOCOL.md): `MessageGenerator` is a deterministic function of the sequence
+  of values `rapid` hands out. rapid itself is a black box supplying draws (`Draw`); `setFields` /
+  `generate` replay a draw sequence; theorems (Properties/C18Draws.lean) quantify over all draw sequences.
+
+  Representation. The generator is defined **directly on `Val`**, on the abstract (`repNorm`) form of a
+  message: blobs carry no nil flag, lists are `.list false es`, maps are `.map false es` with the entries
+  sorted by key, a oneof member is `.none` / `.one v`. Every update is the abstract semantics of the
+  protoreflect call the Go code makes, i.e. the field-level functions of the SPEC machine
+  (`SpecReflect.mutF`, `setF`, `clearF`, `lappF`, `lappmF`, `ltruncF`, `msetF`, `mclrF`, `mmutF` lifted
+  by `applyFW`); the equalities are the `rp_bridge_*` lemmas of Proofs/RapidBridge.lean.
 -/
 import Pulsar.Timepb
 import Pulsar.Extracted
+import Pulsar.Reflect
 namespace Pulsar.Rapidproto
 open Pulsar Pulsar.Timepb
 
@@ -31,5 +44,323 @@ def descends (depth : Nat) : Bool := !(decide (depth > Extracted.depthLimit))
 def branchCalls : (fuel : Nat) → (depth : Nat) → Nat
   | 0, _ => 1                                  -- depth > limit: the call returns false immediately
   | fuel+1, depth => 1 + branchCalls fuel (depth + 1)
+
+/-! ## Draw level -/
+
+/-- One value handed out by `rapid.X().Draw(t, label)`, as the draw log shows it. A numeric token does
+    not say which Go type it had, so it carries every reading (`none` = the text is not of that form). -/
+inductive Draw
+  | bool (b : Bool)                                   -- `Bool()`
+  | num (i : Option Int) (f32 f64 : Option Nat)       -- integer reading / IEEE bits as float32 / float64
+  | str (b : Bytes)                                   -- `String()`, `StringMatching`
+  | bytes (b : Bytes)                                 -- `SliceOf(Byte())`
+  | strs (l : List Bytes)                             -- `SliceOfN(StringMatching(…),1,5)`
+  deriving Repr, Inhabited, DecidableEq
+
+namespace Draw
+def getBool : Draw → Bool | bool b => b | _ => false
+def getInt : Draw → Int | num (some i) _ _ => i | _ => 0
+def getF32 : Draw → Nat | num _ (some n) _ => n | _ => 0
+def getF64 : Draw → Nat | num _ _ (some n) => n | _ => 0
+def getBlob : Draw → Bytes | str b => b | bytes b => b | _ => []
+end Draw
+
+/-- `GeneratorOptions` (the modelled part: no `FieldMaps`, no Any type URLs) -/
+structure GenOpts where
+  noEmptyLists : Bool := false
+  disallowNil : Bool := false
+  deriving Repr, Inhabited, DecidableEq
+
+/-- the rapid generator a draw is taken from -/
+inductive Gen
+  | bool | int32 | uint32 | int64 | uint64 | float32 | float64 | string | bytes
+  | count (min : Nat)        -- `IntRange(min, 10)`
+  | enumIdx (n : Nat)        -- `Int32Range(0, n-1)`
+  deriving Repr, Inhabited, DecidableEq
+
+/-- the draw has the Go type of the generator (a token of another type makes the replay `stuck`) -/
+def Gen.accepts : Gen → Draw → Bool
+  | .bool, .bool _ => true
+  | .string, .str _ => true
+  | .bytes, .bytes _ => true
+  | .float32, .num _ (some _) _ => true
+  | .float64, .num _ _ (some _) => true
+  | .int32, .num (some _) _ _ => true
+  | .uint32, .num (some _) _ _ => true
+  | .int64, .num (some _) _ _ => true
+  | .uint64, .num (some _) _ _ => true
+  | .count _, .num (some _) _ _ => true
+  | .enumIdx _, .num (some _) _ _ => true
+  | _, _ => false
+
+/-- the draw lies in the range of the generator: rapid's contract. For `String()` this is the
+    assumption that rapid yields valid UTF-8. -/
+def Gen.inRange : Gen → Draw → Bool
+  | .bool, _ => true
+  | .bytes, _ => true
+  | .string, d => utf8Valid d.getBlob
+  | .float32, d => decide (d.getF32 < 4294967296)
+  | .float64, d => decide (d.getF64 < 18446744073709551616)
+  | .int32, d => decide (-2147483648 ≤ d.getInt ∧ d.getInt < 2147483648)
+  | .uint32, d => decide (0 ≤ d.getInt ∧ d.getInt < 4294967296)
+  | .int64, d => decide (-9223372036854775808 ≤ d.getInt ∧ d.getInt < 9223372036854775808)
+  | .uint64, d => decide (0 ≤ d.getInt ∧ d.getInt < 18446744073709551616)
+  | .count min, d => decide ((min : Int) ≤ d.getInt ∧ d.getInt ≤ (Extracted.listMax : Int))
+  | .enumIdx n, d => decide (0 ≤ d.getInt ∧ d.getInt < (n : Int))
+
+/-- a consumed draw together with the generator that consumed it -/
+structure Ev where
+  gen : Gen
+  draw : Draw
+  deriving Repr, Inhabited, DecidableEq
+
+def Ev.inRange (e : Ev) : Bool := e.gen.inRange e.draw
+
+/-- why a replay cannot continue. `fuel` and `truncate` never occur (`C18_draws_total`). -/
+inductive Why
+  | wrongType    -- the next draw has another type than the generator the code calls
+  | missing      -- no draw left
+  | leftover     -- generation finished without consuming every draw
+  | fuel         -- the recursion fuel of the model ran out
+  | truncate     -- `list.Truncate(i)` with `i` larger than the length of the list
+  deriving Repr, Inhabited, DecidableEq
+
+/-- outcome of replaying draws: a result, the draws not yet consumed and the consumed draws (in order,
+    each with its generator); or `stuck`, with the number of draws that were still unconsumed (the
+    position in the original sequence is its length minus this number). -/
+inductive R (α : Type)
+  | ok (a : α) (rest : List Draw) (tr : List Ev)
+  | stuck (remaining : Nat) (why : Why)
+  deriving Repr
+
+namespace R
+def bind {α β} (r : R α) (f : α → List Draw → R β) : R β :=
+  match r with
+  | .ok a rest tr =>
+    (match f a rest with
+     | .ok b rest' tr' => .ok b rest' (tr ++ tr')
+     | .stuck p w => .stuck p w)
+  | .stuck p w => .stuck p w
+
+def map {α β} (g : α → β) (r : R α) : R β :=
+  match r with
+  | .ok a rest tr => .ok (g a) rest tr
+  | .stuck p w => .stuck p w
+end R
+
+/-- `rapid.G.Draw`: take the next draw, which must have the generator's type -/
+def draw (g : Gen) : List Draw → R Draw
+  | [] => .stuck 0 .missing
+  | d :: ds => if g.accepts d then .ok d ds [⟨g, d⟩] else .stuck (ds.length + 1) .wrongType
+
+/-- `genScalarFieldValue`: the generator called for a kind (`E`: the declared enum numbers) -/
+def scalarGen (E : List Int) : Kind → Gen
+  | .int32 | .sint32 | .sfixed32 => .int32
+  | .uint32 | .fixed32 => .uint32
+  | .int64 | .sint64 | .sfixed64 => .int64
+  | .uint64 | .fixed64 => .uint64
+  | .bool => .bool
+  | .bytes => .bytes
+  | .float => .float32
+  | .double => .float64
+  | .string => .string
+  | .enum => .enumIdx E.length
+
+/-- … and the stored value: the bit pattern of the field's width (two's complement truncation for
+    integers), 0/1 for bool, the declared number of the drawn index for enums (`genEnum`). -/
+def scalarVal (E : List Int) (k : Kind) (d : Draw) : Val :=
+  match k with
+  | .int32 | .sint32 | .sfixed32 | .uint32 | .fixed32 => .bits (ofInt32 d.getInt)
+  | .int64 | .sint64 | .sfixed64 | .uint64 | .fixed64 => .bits (ofInt64 d.getInt)
+  | .bool => .bits (if d.getBool then 1 else 0)
+  | .bytes | .string => .blob false d.getBlob
+  | .float => .bits (d.getF32 % 4294967296)
+  | .double => .bits (d.getF64 % 18446744073709551616)
+  | .enum => .bits (ofInt32 (genEnum E d.getInt.toNat))
+
+def genScalar (E : List Int) (k : Kind) (ds : List Draw) : R Val :=
+  (draw (scalarGen E k) ds).map (scalarVal E k)
+
+/-- `field.Kind() == protoreflect.MessageKind`: message-typed fields of every cardinality **and every map
+    field** (a map field's kind is that of its entry message). -/
+def isMsgKind (f : FieldDesc) : Bool :=
+  match f.shape, f.elem with
+  | .map _, _ => true
+  | _, .message _ => true
+  | _, .scalar _ => false
+
+/-- list of scalars: `for i < n { list.Append(genScalarFieldValue) }` -/
+def listScalars (E : List Int) (k : Kind) : Nat → List Val → List Draw → R (List Val)
+  | 0, es, ds => .ok es ds []
+  | n+1, es, ds => (genScalar E k ds).bind fun v rest => listScalars E k n (es ++ [v]) rest
+
+/-- list of messages: `for i < n { if !setFields(list.AppendMutable(), depth+1) { list.Truncate(i) } }`.
+    `i` is the loop index — not the length before the append. `child mi v` is `setFields(v, depth+1)` for
+    a message of type `mi`. -/
+def listMsgs (S : Schema) (child : Nat → Val → List Draw → R (Bool × Val)) (mi : Nat) :
+    Nat → Nat → List Val → List Draw → R (List Val)
+  | 0, _, es, ds => .ok es ds []
+  | n+1, i, es, ds =>
+    (child mi (emptyMsg S mi) ds).bind fun r rest =>
+      if r.1 then listMsgs S child mi n (i+1) (es ++ [r.2]) rest
+      else if i ≤ (es ++ [r.2]).length then listMsgs S child mi n (i+1) ((es ++ [r.2]).take i) rest
+      else .stuck rest.length .truncate
+
+/-- map with scalar values: `key ← draw; value ← draw; m.Set(key, value)` -/
+def mapScalars (E : List Int) (kk vk : Kind) : Nat → List Val → List Draw → R (List Val)
+  | 0, es, ds => .ok es ds []
+  | n+1, es, ds =>
+    (genScalar E kk ds).bind fun k rest =>
+      (genScalar E vk rest).bind fun v rest' =>
+        mapScalars E kk vk n (sortEntries kk (mapPut (kbeqOf kk) es k v)) rest'
+
+/-- map with message values: `key ← draw; if !setFields(m.Mutable(key), depth+1) { m.Clear(key) }`;
+    `m.Mutable(key)` is the existing value when the key was drawn before. -/
+def mapMsgs (S : Schema) (E : List Int) (child : Nat → Val → List Draw → R (Bool × Val)) (kk : Kind) (mi : Nat) :
+    Nat → List Val → List Draw → R (List Val)
+  | 0, es, ds => .ok es ds []
+  | n+1, es, ds =>
+    (genScalar E kk ds).bind fun k rest =>
+      (child mi (valueOr (findEntry kk es k) (emptyMsg S mi)) rest).bind fun r rest' =>
+        mapMsgs S E child kk mi n
+          (if r.1 then sortEntries kk (mapPut (kbeqOf kk) es k r.2) else mapDel kk es k) rest'
+
+/-- `setFieldValue` on field `j` (descriptor `f`) of a message whose slots are `slots` -/
+def genField (S : Schema) (o : GenOpts) (E : List Int) (child : Nat → Val → List Draw → R (Bool × Val))
+    (fs : List FieldDesc) (f : FieldDesc) (j : Nat) (slots : List Val) (ds : List Draw) : R (List Val) :=
+  let cur := slots.getD j .none
+  match f.shape, f.elem with
+  | .repeated _, .scalar k =>
+    (draw (.count (if o.noEmptyLists then 1 else 0)) ds).bind fun n rest =>
+      (listScalars E k n.getInt.toNat cur.elems rest).map fun es => slots.set j (.list false es)
+  | .repeated _, .message mi =>
+    (draw (.count (if o.noEmptyLists then 1 else 0)) ds).bind fun n rest =>
+      (listMsgs S child mi n.getInt.toNat 0 cur.elems rest).map fun es => slots.set j (.list false es)
+  | .map kk, .scalar vk =>
+    (draw (.count 0) ds).bind fun n rest =>
+      (mapScalars E kk vk n.getInt.toNat cur.elems rest).map fun es => slots.set j (.map false es)
+  | .map kk, .message mi =>
+    (draw (.count 0) ds).bind fun n rest =>
+      (mapMsgs S E child kk mi n.getInt.toNat cur.elems rest).map fun es => slots.set j (.map false es)
+  | .singular, .message mi =>
+    -- Mutable: the existing message or a new empty one; Clear when setFields returned false
+    (child mi (if cur.isNone then emptyMsg S mi else cur) ds).map fun r =>
+      slots.set j (if r.1 then r.2 else .none)
+  | .oneof g, .message mi =>
+    (match cur with
+     | .one x =>
+       (child mi x ds).map fun r => slots.set j (if r.1 then .one r.2 else .none)
+     | _ =>
+       -- Mutable stores a new wrapper: the other members of the group are dropped, also when the
+       -- field is cleared again afterwards
+       (child mi (emptyMsg S mi) ds).map fun r =>
+         (clearGroup fs g slots).set j (if r.1 then .one r.2 else .none))
+  | .singular, .scalar k => (genScalar E k ds).map fun v => slots.set j v
+  | .oneof g, .scalar k => (genScalar E k ds).map fun v => (clearGroup fs g slots).set j (.one v)
+
+/-- the loop of `setFields` over the fields (`rem`: the fields from index `j` on) -/
+def genFields (S : Schema) (o : GenOpts) (E : List Int) (child : Nat → Val → List Draw → R (Bool × Val))
+    (fs : List FieldDesc) : Nat → List FieldDesc → List Val → List Draw → R (List Val)
+  | _, [], slots, ds => .ok slots ds []
+  | j, f :: rem, slots, ds =>
+    (draw .bool ds).bind fun g rest =>
+      if !g.getBool && isMsgKind f && !o.disallowNil then genFields S o E child fs (j+1) rem slots rest
+      else (genField S o E child fs f j slots rest).bind fun slots' rest' =>
+        genFields S o E child fs (j+1) rem slots' rest'
+
+/-- `opts.setFields(t, _, msg, depth)` on the message `v` of type `i`: `(ok, message afterwards)`.
+    Fuel: `Extracted.depthLimit + 2 - depth` suffices (`C18_draws_total`). -/
+def setFields (S : Schema) (o : GenOpts) (E : List Int) :
+    (fuel : Nat) → (depth : Nat) → (i : Nat) → Val → List Draw → R (Bool × Val)
+  | 0, depth, _, v, ds =>
+    if depth > Extracted.depthLimit then .ok (false, v) ds [] else .stuck ds.length .fuel
+  | fuel+1, depth, i, v, ds =>
+    if depth > Extracted.depthLimit then .ok (false, v) ds []
+    else
+      (genFields S o E (setFields S o E fuel (depth+1)) (S.msg i).fields 0 (S.msg i).fields v.slots ds).map
+        fun slots => (true, .msg slots v.unknown)
+
+/-- the fuel the theorems are about -/
+def fuelFor (depth : Nat) : Nat := Extracted.depthLimit + 2 - depth
+
+/-- `MessageGenerator`: `msg := New()`, the `empty` draw for a type without fields, `setFields(msg, 0)`;
+    every draw must have been consumed. On success the rest is `[]`. -/
+def generate (S : Schema) (o : GenOpts) (E : List Int) (i : Nat) (ds : List Draw) : R Val :=
+  (if (S.msg i).fields.isEmpty then (draw .bool ds).map (fun _ => ()) else .ok () ds []).bind fun _ rest =>
+    (setFields S o E (fuelFor 0) 0 i (emptyMsg S i) rest).bind fun r rest' =>
+      if rest'.isEmpty then .ok r.2 [] [] else .stuck rest'.length .leftover
+
+/-! ## Predicates of the theorems -/
+
+/-- the bit pattern is the int32 pattern of a declared enum number -/
+def enumDeclared (E : List Int) (v : Val) : Bool := (E.map ofInt32).contains v.getBits
+
+def enumElem (E : List Int) (child : Nat → Val → Bool) (e : Elem) (v : Val) : Bool :=
+  match e with
+  | .scalar .enum => enumDeclared E v
+  | .scalar _ => true
+  | .message i => v.isNone || child i v
+
+def enumSlot (E : List Int) (child : Nat → Val → Bool) (f : FieldDesc) (v : Val) : Bool :=
+  match f.shape with
+  | .singular => enumElem E child f.elem v
+  | .repeated _ => v.elems.all (enumElem E child f.elem)
+  | .map kk => v.elems.all (fun en => (kk != .enum || enumDeclared E en.key) && enumElem E child f.elem en.value)
+  | .oneof _ => (match v with | .one x => enumElem E child f.elem x | _ => true)
+
+/-- every enum-kind field (singular, list element, map value, oneof member) holds a declared number, at
+    every depth (same shape as `utf8OK`) -/
+def enumsOK (S : Schema) (E : List Int) : Nat → Nat → Val → Bool
+  | 0, _, _ => true
+  | fuel+1, i, v => ((S.msg i).fields.zip v.slots).all (fun p => enumSlot E (enumsOK S E fuel) p.1 p.2)
+
+/-! ### "for every message of the tree" -/
+
+def evElem (child : Nat → Val → Bool) (e : Elem) (v : Val) : Bool :=
+  match e with
+  | .scalar _ => true
+  | .message i => v.isNone || child i v
+
+def evSlot (child : Nat → Val → Bool) (f : FieldDesc) (v : Val) : Bool :=
+  match f.shape with
+  | .singular => evElem child f.elem v
+  | .repeated _ => v.elems.all (evElem child f.elem)
+  | .map _ => v.elems.all (fun en => evElem child f.elem en.value)
+  | .oneof _ => (match v with | .one x => evElem child f.elem x | _ => true)
+
+/-- `mp d j m` holds for every message `m` in the tree of `v` — `v` itself (type `i`) at depth `depth`,
+    the messages its fields hold (singular, list elements, map values, oneof members) at `depth + 1`, and so
+    on. `d` is the `depth` argument of the `setFields` call that filled (or would fill) `m`. -/
+def everywhere (mp : Nat → Nat → Val → Bool) (S : Schema) : (fuel depth i : Nat) → Val → Bool
+  | 0, _, _, _ => true
+  | fuel+1, depth, i, v =>
+    mp depth i v && ((S.msg i).fields.zip v.slots).all (fun p => evSlot (everywhere mp S fuel (depth+1)) p.1 p.2)
+
+/-- `NoEmptyLists`, one field: a repeated scalar field has an element; a repeated message field has one when
+    `needMsg` (the field is certainly generated: `DisallowNilMessages`) and the elements are generated
+    within the depth limit. -/
+def nelField (needMsg : Bool) (depth : Nat) (f : FieldDesc) (x : Val) : Bool :=
+  match f.shape, f.elem with
+  | .repeated _, .scalar _ => decide (1 ≤ x.elems.length)
+  | .repeated _, .message _ =>
+    !(needMsg && decide (depth < Extracted.depthLimit)) || decide (1 ≤ x.elems.length)
+  | _, _ => true
+
+/-- `NoEmptyLists`, one message filled by `setFields(…, depth)` (nothing is claimed beyond the limit, where
+    `setFields` does nothing) -/
+def nelLocal (S : Schema) (needMsg : Bool) (depth i : Nat) (v : Val) : Bool :=
+  decide (depth > Extracted.depthLimit) ||
+    ((S.msg i).fields.zip v.slots).all (fun p => nelField needMsg depth p.1 p.2)
+
+/-- `DisallowNilMessages`, one field: a singular message field is present -/
+def presentField (f : FieldDesc) (x : Val) : Bool :=
+  match f.shape, f.elem with
+  | .singular, .message _ => !x.isNone
+  | _, _ => true
+
+/-- `DisallowNilMessages`, one message filled by `setFields(…, depth)` with `depth < depthLimit` -/
+def nonilLocal (S : Schema) (depth i : Nat) (v : Val) : Bool :=
+  decide (depth ≥ Extracted.depthLimit) ||
+    ((S.msg i).fields.zip v.slots).all (fun p => presentField p.1 p.2)
 
 end Pulsar.Rapidproto
